@@ -104,3 +104,12 @@ PROPS["C27"] = dict(
          "a handler of that set dispatched through tokio::spawn is reported.",
     note="Interleavings inside one handler and with reload tasks are not decided (C28/C29). Trusted: rustc coroutine MIR, "
          "emmyfacts, call-graph over-approximation.")
+
+PROPS["C28"] = dict(
+    module="c28", func="run", level="other", crates=["emmylua_ls", "emmylua_check", "emmylua_doc_cli"],
+    technique="lock-order analysis: guard liveness dataflow on coroutine MIR, interprocedural acquires() summaries, SCCs of held->acquired",
+    text="Decides the three structural clauses of the statement for every task body in the server: the held->acquired "
+         "relation over lock objects is acyclic (one global order), no lock is re-acquired while held, no blocking std guard "
+         "lives across an await. Sound over the analysed bodies for deadlocks that consist of lock waits only.",
+    note="Liveness under starvation and deadlocks through channels/JoinHandles are not decided. Trusted: rustc coroutine MIR, "
+         "emmyfacts, lock identity = guarded type (table of lock fields printed in evidence).")
